@@ -21,6 +21,20 @@ def fresh_name(prefix: str) -> str:
     return f"{prefix}!{next(_counter)}"
 
 
+BINDER_DEPTH = [0]
+
+
+def push_binder(prefix: str) -> str:
+    """Deterministic name (by nesting depth) for a variable about to be bound by a quantifier: alpha-equivalent
+    clauses evaluated twice then become syntactically equal terms.  Must be paired with pop_binder()."""
+    BINDER_DEPTH[0] += 1
+    return f"{prefix}%{BINDER_DEPTH[0]}"
+
+
+def pop_binder():
+    BINDER_DEPTH[0] -= 1
+
+
 def fresh_v(prefix: str = "v"):
     return z3.Const(fresh_name(prefix), V)
 
@@ -34,20 +48,20 @@ def fresh_bool(prefix: str = "b"):
 
 
 # ---- distinguished constants -------------------------------------------------------------
-NONE = z3.Const("None", V)
-TRUE = z3.Const("True", V)
-FALSE = z3.Const("False", V)
+NONE = z3.Const("py_None", V)
+TRUE = z3.Const("py_True", V)
+FALSE = z3.Const("py_False", V)
 
 # tags
-is_str = z3.Function("is_str", V, z3.BoolSort())
-is_int = z3.Function("is_int", V, z3.BoolSort())
-is_bool = z3.Function("is_bool", V, z3.BoolSort())
-is_list = z3.Function("is_list", V, z3.BoolSort())
-is_tuple = z3.Function("is_tuple", V, z3.BoolSort())
-is_dict = z3.Function("is_dict", V, z3.BoolSort())
-is_set = z3.Function("is_set", V, z3.BoolSort())
-is_sentinel = z3.Function("is_sentinel", V, z3.BoolSort())  # module-level singleton objects / enum members
-is_exc = z3.Function("is_exc", V, z3.BoolSort())
+is_str = z3.Function("tag_str", V, z3.BoolSort())
+is_int = z3.Function("tag_int", V, z3.BoolSort())
+is_bool = z3.Function("tag_bool", V, z3.BoolSort())
+is_list = z3.Function("tag_list", V, z3.BoolSort())
+is_tuple = z3.Function("tag_tuple", V, z3.BoolSort())
+is_dict = z3.Function("tag_dict", V, z3.BoolSort())
+is_set = z3.Function("tag_set", V, z3.BoolSort())
+is_sentinel = z3.Function("tag_sentinel", V, z3.BoolSort())  # module-level singleton objects / enum members
+is_exc = z3.Function("tag_exc", V, z3.BoolSort())
 truthy = z3.Function("truthy", V, z3.BoolSort())
 ueq = z3.Function("ueq", V, V, z3.BoolSort())  # user-level __eq__ on opaque values
 ival = z3.Function("ival", V, z3.IntSort())
